@@ -16,7 +16,7 @@ mod verif_l1_crc {
     use super::*;
     use crate::verif_spec::h::*;
 
-    //@ob id=L1.crc56.14 props=C03,C04 tier=quick kind=contract fns=utils/crc.rs:crc56 draw=frame14
+    //@ob id=L1.crc56.14 props=C03,C04,C01 tier=quick kind=contract fns=utils/crc.rs:crc56 draw=frame14
     //@region all 2^56 short frames: shifted-window division == bit-serial CRC-24 LFSR (generator 0x1FFF409) over the first 32 bits
     #[kani::proof]
     #[kani::unwind(90)]
@@ -27,7 +27,7 @@ mod verif_l1_crc {
         kani::cover!(true, "reach_end");
     }
 
-    //@ob id=L1.crc56.28 props=C03 tier=thorough kind=contract fns=utils/crc.rs:crc56 draw=frame28
+    //@ob id=L1.crc56.28 props=C03,C01 tier=thorough kind=contract fns=utils/crc.rs:crc56 draw=frame28
     //@region all long frames (get_crc sends a long frame here only for DF<=15, which get_message excludes; kept for completeness)
     #[kani::proof]
     #[kani::unwind(90)]
@@ -38,7 +38,7 @@ mod verif_l1_crc {
         kani::cover!(true, "reach_end");
     }
 
-    //@ob id=L1.crc112 props=C03,C04 tier=quick kind=contract fns=utils/crc.rs:crc112 draw=frame28
+    //@ob id=L1.crc112 props=C03,C04,C01 tier=quick kind=contract fns=utils/crc.rs:crc112 draw=frame28
     //@region all 2^112 long frames: three-word shifted-window division == bit-serial CRC-24 LFSR over the first 88 bits
     #[kani::proof]
     #[kani::unwind(90)]
@@ -55,7 +55,7 @@ mod verif_l1_crc {
     // usable here: its instrumentation does not finish on crc112 (measured: > 25 min), so these
     // are harness-form contracts run with --no-assert-contracts (the nested re-assertion of the
     // CRC equivalence would otherwise be repeated in every caller).
-    //@ob id=L1.get_crc.14 flags=noassert props=C03,C04 tier=quick kind=harness fns=utils/crc.rs:get_crc draw=frame14
+    //@ob id=L1.get_crc.14 flags=noassert props=C03,C04,C01 tier=quick kind=harness fns=utils/crc.rs:get_crc draw=frame14
     //@region all short frames x all df<=15: CRC over the first 32 bits (dispatch to the 56-bit routine)
     #[kani::proof]
     #[kani::unwind(90)]
@@ -67,7 +67,7 @@ mod verif_l1_crc {
         kani::cover!(true, "reach_end");
     }
 
-    //@ob id=L1.get_crc.28 flags=noassert props=C03,C04 tier=quick kind=harness fns=utils/crc.rs:get_crc draw=frame28
+    //@ob id=L1.get_crc.28 flags=noassert props=C03,C04,C01 tier=quick kind=harness fns=utils/crc.rs:get_crc draw=frame28
     //@region all long frames x all df>=16: CRC over the first 88 bits (dispatch to the 112-bit routine)
     #[kani::proof]
     #[kani::unwind(90)]
